@@ -96,6 +96,9 @@ fn fee_sums_do_not_wrap() {
     let mut rng = Rng::from_env();
     for round in 0..3000 {
         let mut tx = Transaction::default();
+        // the surplus is the fee whatever type the transaction carries (a golden-ticket transaction may pay one too)
+        tx.transaction_type = [TransactionType::Normal, TransactionType::GoldenTicket, TransactionType::Normal, TransactionType::Vip, TransactionType::BlockStake][(rng.below(5)) as usize];
+        let ttype = tx.transaction_type;
         let nin = 1 + rng.below(3); let nout = 1 + rng.below(3);
         for _ in 0..nin { let mut s = Slip::default(); s.amount = if round % 2 == 0 { rng.below(1000) } else { rng.edge_u64() }; s.public_key = [2; 33]; tx.from.push(s); }
         for _ in 0..nout { let mut s = Slip::default(); s.amount = rng.edge_u64(); s.public_key = [3; 33]; tx.to.push(s); }
@@ -111,7 +114,7 @@ fn fee_sums_do_not_wrap() {
             Ok((ti, to, tf)) => {
                 // (inputs of an accepted transaction are distinct existing outputs, so their sum is below the supply, far below 2^64)
                 if sum_out > sum_in && sum_in < u64::MAX as u128 && to <= ti { witness(format!("outputs exceed inputs ({} > {}) but total_out={} <= total_in={}: {}", sum_out, sum_in, to, ti, desc)); }
-                if sum_in <= u64::MAX as u128 && sum_out <= u64::MAX as u128 && (ti as u128 != sum_in || to as u128 != sum_out || tf as u128 != sum_in.saturating_sub(sum_out)) { witness(format!("sums wrong: {}", desc)); }
+                if sum_in <= u64::MAX as u128 && sum_out <= u64::MAX as u128 && (ti as u128 != sum_in || to as u128 != sum_out || tf as u128 != sum_in.saturating_sub(sum_out)) { witness(format!("{:?} transaction: total_in={} total_out={} total_fees={} — the fee must be the surplus of inputs over outputs: {}", ttype, ti, to, tf, desc)); }
             }
         }
     }
@@ -306,6 +309,44 @@ async fn accepted_transaction_creates_no_value() {
                 round, tx.transaction_type, consumed, paid, paid - consumed));
         }
         if !nft && !accepted && paid <= consumed { witness(format!("round {}: a plain payment with inputs {} and outputs {} was refused", round, consumed, paid)); }
+    }
+    // an NFT changing hands ([Bound, Normal, Bound] in and out): the quantity in the Bound input is not value; also a
+    // transaction whose only input carries no value at all
+    for round in 0..40u64 {
+        let zero_input = round % 4 == 3;
+        let units = 1 + rng.below(1_000_000);
+        let nolan_in = if zero_input { 0 } else { 1 + rng.below(1_000) };
+        let nolan_out = match rng.below(3) { 0 => nolan_in, 1 => nolan_in + units, _ => nolan_in + 1 + rng.below(1_000_000_000) };
+        let mut tx = Transaction::default();
+        if zero_input {
+            let mut i = Slip::default(); i.public_key = pk; i.amount = 0; i.block_id = 9; i.tx_ordinal = round; tx.add_from_slip(i);
+            let mut o = Slip::default(); o.public_key = pk; o.amount = nolan_out; tx.add_to_slip(o);
+        } else {
+            tx.transaction_type = TransactionType::Bound;
+            let mut ins = [Slip::default(), Slip::default(), Slip::default()];
+            ins[0].public_key = pk; ins[0].amount = units; ins[0].slip_type = SlipType::Bound;
+            ins[1].public_key = pk; ins[1].amount = nolan_in;
+            ins[2].public_key = [7; 33]; ins[2].amount = 0; ins[2].slip_type = SlipType::Bound;
+            for (k, i) in ins.iter_mut().enumerate() { i.block_id = 9; i.tx_ordinal = round; i.slip_index = k as u8; }
+            let mut outs = [Slip::default(), Slip::default(), Slip::default()];
+            outs[0].public_key = pk; outs[0].amount = units; outs[0].slip_type = SlipType::Bound;
+            outs[1].public_key = pk; outs[1].amount = nolan_out;
+            outs[2].public_key = [7; 33]; outs[2].amount = 0; outs[2].slip_type = SlipType::Bound;
+            for i in ins.iter() { tx.add_from_slip(i.clone()); }
+            for o in outs.iter() { tx.add_to_slip(o.clone()); }
+        }
+        tx.sign(&sk);
+        tx.generate(&pk, 0, 10);
+        for i in tx.from.iter() { if i.amount > 0 { blockchain.utxoset.insert(i.utxoset_key, true); } }
+        let accepted = tx.validate(&blockchain.utxoset, &blockchain, true);
+        let consumed: u128 = tx.from.iter().filter(|s| s.slip_type != SlipType::Bound).map(|s| s.amount as u128).sum();
+        let paid: u128 = tx.to.iter().filter(|s| s.slip_type != SlipType::Bound).map(|s| s.amount as u128).sum();
+        if accepted && paid > consumed {
+            witness(format!("{}: inputs worth {} nolan{}, value-carrying outputs worth {} — accepted by Transaction::validate, it pays out {} more than it consumes",
+                if zero_input { "a transaction whose only input carries no value".to_string() } else { "an NFT transfer".to_string() }, consumed,
+                if zero_input { String::new() } else { format!(" (plus {} NFT units in the Bound input)", units) }, paid, paid - consumed));
+        }
+        if !zero_input && nolan_out == nolan_in && !accepted { witness(format!("an honest NFT transfer ({} nolan in, {} out) was refused", nolan_in, nolan_out)); }
     }
 }
 
